@@ -266,7 +266,7 @@ def w_opts(where: int, top: int, alt: int, hk: int, tdo: int, fb: int) -> str:
     pre: 0 <= where < 6 and 0 <= top < 3 and 0 <= alt < 5 and 0 <= hk < 7 and 0 <= tdo < 4 and 0 <= fb < 4
     post: _ == ''
     """
-    return _case(rt.sel(where, 6), [0, 1, 2][top], rt.sel(alt, 5), rt.sel(hk, 7), 0, rt.sel(tdo, 4), rt.sel(fb, 4))
+    return _case(rt.sel(where, 6), rt.of([0, 1, 2], top), rt.sel(alt, 5), rt.sel(hk, 7), 0, rt.sel(tdo, 4), rt.sel(fb, 4))
 
 
 def w_full(where: int, top: int, alt: int, hk: int, uid: int, tdo: int, fb: int) -> str:
